@@ -284,7 +284,7 @@ func genQuerySets(t *rapid.T, c *gcsCase) []qset {
 var recGCS = ev.New("C20", "gcs",
 	"element multisets of 0..5000 (20000 thorough) byte strings (empty, 1-4 byte, 20-40 byte, long, duplicates; big sets expanded from a rapid seed), "+
 		"P 1..32 (boundary-biased 1..4, 28..32, 19/20), M in {1,2,3,784931,2^P,2^P+-1,1.497*2^P,2^40,uniform} capped to M/2^P <= 2^10 (unary quotient cost), random/zero/ff SipHash keys; "+
-		"oracle = independent BIP158 model (own SipHash-2-4, 128-bit multiply-shift, Golomb-Rice bit writer): filter bytes equal the model's, N/P/NBytes/PBytes/NPBytes layouts, decode round trips, "+
+		"oracle = independent BIP158 model (own SipHash-2-4, 128-bit multiply-shift, Golomb-Rice bit writer): filter bytes equal the model's, N/P/NBytes/PBytes/NPBytes layouts, decode round trips (each decoder reads from its own buffer, which is overwritten as soon as the decoder has returned), "+
 		"every member matches, Match(q) = model verdict for sampled queries, MatchAny/ZipMatchAny/HashMatchAny = OR of element-wise verdicts (false positives included) for 6-7 query sets per case; "+
 		"non-trivial = (N>=2 with a duplicate) or N>=1000 or P<=4 or P>=28; distinct by hash of (P,M,key,elements)",
 	"n=0", "n=1", "small", "medium", "n>=1000", "dup", "p<=4", "p>=28", "m=1", "m=bip158", "hash-path", "zip-path", "fp-batch", "member-batch", "compactsize-3byte")
@@ -479,16 +479,26 @@ func TestGCS(t *testing.T) {
 		{
 			var d *gcs.Filter
 			var derr error
-			if perr := guard(func() { d, derr = gcs.FromNBytes(c.P, c.M, nb) }); perr != nil || derr != nil {
+			// every decoder gets its own buffer (as read from the network or the database) that is
+			// overwritten once the decoder has returned: the filter must not depend on it any more
+			own := func(b []byte) []byte { return append(make([]byte, 0, len(b)+8), b...) }
+			scribble := func(b []byte) {
+				b = b[:cap(b)]
+				for i := range b {
+					b[i] = 0xee
+				}
+			}
+			nbBuf, rawBuf, pbBuf, npbBuf := own(nb), own(raw), own(pb), own(npb)
+			if perr := guard(func() { d, derr = gcs.FromNBytes(c.P, c.M, nbBuf) }); perr != nil || derr != nil {
 				t.Fatalf("FromNBytes(NBytes()) failed: %v %v\ncase: %s", perr, derr, desc())
 			}
 			decoded["FromNBytes"] = d
-			if perr := guard(func() { d, derr = gcs.FromBytes(uint32(n), c.P, c.M, raw) }); perr != nil || derr != nil {
+			if perr := guard(func() { d, derr = gcs.FromBytes(uint32(n), c.P, c.M, rawBuf) }); perr != nil || derr != nil {
 				t.Fatalf("FromBytes(Bytes()) failed: %v %v\ncase: %s", perr, derr, desc())
 			}
 			decoded["FromBytes"] = d
 			// PBytes: P || data
-			if perr := guard(func() { d, derr = gcs.FromBytes(uint32(n), pb[0], c.M, pb[1:]) }); perr != nil || derr != nil {
+			if perr := guard(func() { d, derr = gcs.FromBytes(uint32(n), pbBuf[0], c.M, pbBuf[1:]) }); perr != nil || derr != nil {
 				t.Fatalf("FromBytes(PBytes) failed: %v %v\ncase: %s", perr, derr, desc())
 			}
 			decoded["PBytes"] = d
@@ -497,10 +507,13 @@ func TestGCS(t *testing.T) {
 			if !ok || nn != uint64(n) || len(npb) < sz+1 {
 				t.Fatalf("NPBytes does not start with CompactSize(N): %s\ncase: %s", trunc(npb, 12), desc())
 			}
-			if perr := guard(func() { d, derr = gcs.FromBytes(uint32(nn), npb[sz], c.M, npb[sz+1:]) }); perr != nil || derr != nil {
+			if perr := guard(func() { d, derr = gcs.FromBytes(uint32(nn), npbBuf[sz], c.M, npbBuf[sz+1:]) }); perr != nil || derr != nil {
 				t.Fatalf("FromBytes(NPBytes) failed: %v %v\ncase: %s", perr, derr, desc())
 			}
 			decoded["NPBytes"] = d
+			for _, b := range [][]byte{nbBuf, rawBuf, pbBuf, npbBuf} {
+				scribble(b)
+			}
 		}
 		decNames := []string{"FromNBytes", "FromBytes", "PBytes", "NPBytes"}
 		for _, name := range decNames {
